@@ -137,16 +137,64 @@ def parse_tla_value(s):
     return val()
 
 
+def _depth_delta(line):
+    """Net bracket depth of one output line, ignoring brackets inside strings."""
+    d, i, n, instr = 0, 0, len(line), False
+    while i < n:
+        c = line[i]
+        if instr:
+            if c == "\\":
+                i += 1
+            elif c == '"':
+                instr = False
+        elif c == '"':
+            instr = True
+        elif line.startswith("<<", i):
+            d += 1
+            i += 1
+        elif line.startswith(">>", i):
+            d -= 1
+            i += 1
+        elif c in "([{":
+            d += 1
+        elif c in ")]}":
+            d -= 1
+        i += 1
+    return d
+
+
+PRINT_ERRORS = []
+
+
 def extract_prints(out):
-    """PrintT output lines start with << at column 0; collect bracket-balanced
-    tuples (16-worker output may interleave lines, tuples stay intact)."""
-    res = []
+    """PrintT output starts with << at column 0.  TLC pretty-prints values wider
+    than ~80 columns over several (indented) lines: collect lines until the
+    brackets balance.  Tuples that can not be parsed are kept in PRINT_ERRORS
+    (callers that count DONE/VIOL tuples notice the loss)."""
+    res, buf, depth = [], None, 0
     for line in out.splitlines():
-        if line.startswith("<<") and line.rstrip().endswith(">>"):
+        if buf is None:
+            if not line.startswith("<<"):
+                continue
+            buf, depth = [], 0
+        elif not (line.startswith(" ") or line.startswith("\t")):
+            # a continuation line is indented; anything else ends a broken tuple
+            PRINT_ERRORS.append("\n".join(buf)[:300])
+            buf = None
+            if not line.startswith("<<"):
+                continue
+            buf, depth = [], 0
+        buf.append(line.strip())
+        depth += _depth_delta(line)
+        if depth <= 0:
+            text = " ".join(buf)
+            buf = None
             try:
-                res.append(parse_tla_value(line.strip()))
+                res.append(parse_tla_value(text))
             except (ValueError, IndexError, AttributeError):
-                pass
+                PRINT_ERRORS.append(text[:300])
+    if buf:
+        PRINT_ERRORS.append("\n".join(buf)[:300])
     return res
 
 
